@@ -1106,5 +1106,209 @@ Qed.
 Corollary mp_fixpoint : forall v, mp_ok v -> mp_ser (mp_norm v) = mp_ser v.
 Proof. intros v _. apply (mp_fixpoint_gen (nesting v)). lia. Qed.
 
-Print Assumptions mp_roundtrip.
-Print Assumptions mp_fixpoint.
+(* ------------------------------------------------------------------------------------- *)
+(* interchange encoding of valid floats *)
+
+Lemma digits2_pos_bounds : forall m,
+  2 ^ (Z.pos (digits2_pos m) - 1) <= Z.pos m < 2 ^ (Z.pos (digits2_pos m)).
+Proof.
+  induction m as [m IH|m IH|]; cbn [digits2_pos].
+  - rewrite Pos2Z.inj_succ. replace (Z.succ (Z.pos (digits2_pos m)) - 1) with (Z.pos (digits2_pos m) - 1 + 1) by lia.
+    rewrite Z.pow_succ_r by lia. rewrite Z.pow_add_r by lia. change (2 ^ 1) with 2. lia.
+  - rewrite Pos2Z.inj_succ. replace (Z.succ (Z.pos (digits2_pos m)) - 1) with (Z.pos (digits2_pos m) - 1 + 1) by lia.
+    rewrite Z.pow_succ_r by lia. rewrite Z.pow_add_r by lia. change (2 ^ 1) with 2. lia.
+  - cbn. lia.
+Qed.
+
+Section Encoding.
+  Variable ft : fmt.
+  Hypothesis Hmw : 1 <= mw ft.
+  Hypothesis Hew : 2 <= ew ft.
+
+  Let P := 2 ^ mw ft.
+  Let Q := 2 ^ ew ft.
+
+  Lemma P_pos : 0 < P. Proof. apply Z.pow_pos_nonneg; lia. Qed.
+  Lemma Q_pos : 0 < Q. Proof. apply Z.pow_pos_nonneg; lia. Qed.
+  Lemma PQ_eq : 2 ^ (mw ft + ew ft) = P * Q. Proof. apply Z.pow_add_r; lia. Qed.
+  Lemma Q_half : Q = 2 * 2 ^ (ew ft - 1).
+  Proof. unfold Q. replace (ew ft) with (ew ft - 1 + 1) at 1 by lia. rewrite Z.pow_add_r by lia. lia. Qed.
+  Lemma P_half : P = 2 * 2 ^ (mw ft - 1).
+  Proof. unfold P. replace (mw ft) with (mw ft - 1 + 1) at 1 by lia. rewrite Z.pow_add_r by lia. lia. Qed.
+
+  Definition decode_fields (s : bool) (e m : Z) : spec_float :=
+    if e =? 0 then
+      (if m =? 0 then S754_zero s else S754_finite s (Z.to_pos m) (femin ft))
+    else if e =? 2 ^ ew ft - 1 then
+      (if m =? 0 then S754_infinity s else S754_nan)
+    else S754_finite s (Z.to_pos (m + 2 ^ mw ft)) (e - bias ft - mw ft).
+
+  Lemma sf_of_bits_fields : forall s e m, 0 <= e < Q -> 0 <= m < P ->
+    0 <= sign_bit ft s + e * P + m < 2 ^ (mw ft + ew ft + 1) /\
+    sf_of_bits ft (sign_bit ft s + e * P + m) = decode_fields s e m.
+  Proof.
+    intros s e m He Hm. pose proof P_pos as HP. pose proof Q_pos as HQ. pose proof PQ_eq as HPQ.
+    set (sb := if s then 1 else 0).
+    assert (Hsb : sign_bit ft s = sb * (P * Q)).
+    { unfold sign_bit, sb. rewrite HPQ. destruct s; lia. }
+    assert (Hsb01 : 0 <= sb <= 1) by (unfold sb; destruct s; lia).
+    assert (Hr : 0 <= e * P + m < P * Q) by nia.
+    split.
+    { replace (mw ft + ew ft + 1) with (1 + (mw ft + ew ft)) by lia.
+      rewrite Z.pow_add_r by lia. rewrite HPQ, Hsb. change (2 ^ 1) with 2. nia. }
+    unfold sf_of_bits, decode_fields. cbv zeta. fold P. fold Q. rewrite HPQ, Hsb.
+    set (x := sb * (P * Q) + e * P + m).
+    assert (E1 : x / (P * Q) = sb).
+    { symmetry. apply (Z.div_unique x (P * Q) sb (e * P + m)); [left; exact Hr|unfold x; ring]. }
+    assert (E2 : x / P = sb * Q + e).
+    { symmetry. apply (Z.div_unique x P (sb * Q + e) m); [left; exact Hm|unfold x; ring]. }
+    assert (E3 : x mod P = m).
+    { symmetry. apply (Z.mod_unique x P (sb * Q + e) m); [left; exact Hm|unfold x; ring]. }
+    assert (E4 : (sb * Q + e) mod Q = e).
+    { symmetry. apply (Z.mod_unique (sb * Q + e) Q sb e); [left; exact He|ring]. }
+    rewrite E1, E2, E3, E4.
+    assert (Es : Z.odd sb = s) by (unfold sb; destruct s; reflexivity).
+    rewrite Es. reflexivity.
+  Qed.
+
+  Lemma valid_repr_ok : forall f, valid_binary (prec ft) (emax ft) f = true -> repr_ok ft f.
+  Proof.
+    intros f Hv. pose proof P_pos as HP. pose proof Q_pos as HQ. pose proof Q_half as HQh.
+    pose proof P_half as HPh.
+    assert (Hh : 0 < 2 ^ (ew ft - 1)) by (apply Z.pow_pos_nonneg; lia).
+    assert (Hh2 : 2 <= 2 ^ (ew ft - 1)).
+    { change 2 with (2 ^ 1) at 1. apply Z.pow_le_mono_r; lia. }
+    assert (Hm1 : 0 < 2 ^ (mw ft - 1)) by (apply Z.pow_pos_nonneg; lia).
+    unfold repr_ok.
+    destruct f as [s|s| |s m e].
+    - (* zero *)
+      destruct (sf_of_bits_fields s 0 0) as [R D]; [lia|lia|].
+      cbn [bits_of_sf]. replace (sign_bit ft s) with (sign_bit ft s + 0 * P + 0) by lia.
+      split; [exact R|]. rewrite D. reflexivity.
+    - (* infinity *)
+      destruct (sf_of_bits_fields s (Q - 1) 0) as [R D]; [lia|lia|].
+      cbn [bits_of_sf]. fold P Q.
+      replace (sign_bit ft s + (Q - 1) * P) with (sign_bit ft s + (Q - 1) * P + 0) by lia.
+      split; [exact R|]. rewrite D. unfold decode_fields. fold Q.
+      destruct (Z.eqb_spec (Q - 1) 0) as [H0|_]; [lia|]. rewrite Z.eqb_refl. reflexivity.
+    - (* NaN *)
+      destruct (sf_of_bits_fields false (Q - 1) (2 ^ (mw ft - 1))) as [R D]; [lia|lia|].
+      cbn [bits_of_sf]. fold P Q.
+      replace ((Q - 1) * P + 2 ^ (mw ft - 1))
+        with (sign_bit ft false + (Q - 1) * P + 2 ^ (mw ft - 1)) by (unfold sign_bit; lia).
+      split; [exact R|]. rewrite D. unfold decode_fields. fold Q.
+      destruct (Z.eqb_spec (Q - 1) 0) as [H0|_]; [lia|]. rewrite Z.eqb_refl.
+      destruct (Z.eqb_spec (2 ^ (mw ft - 1)) 0) as [H0|_]; [lia|]. reflexivity.
+    - (* finite *)
+      cbn [valid_binary] in Hv. unfold bounded in Hv. apply andb_prop in Hv as [Hc Hb].
+      unfold canonical_mantissa in Hc. apply Zeq_bool_eq in Hc. apply Z.leb_le in Hb.
+      unfold fexp, SpecFloat.emin in Hc.
+      pose proof (digits2_pos_bounds m) as Hd. set (d := Z.pos (digits2_pos m)) in *.
+      assert (Hd1 : 1 <= d) by (unfold d; lia).
+      unfold prec, emax in Hc, Hb.
+      cbn [bits_of_sf]. cbv zeta. fold P.
+      destruct (Z.ltb_spec (Z.pos m) P) as [Hlt|Hge].
+      + (* subnormal *)
+        assert (Hdm : d <= mw ft).
+        { destruct (Z_lt_le_dec (mw ft) d) as [Hgt|]; [|lia].
+          assert (P <= 2 ^ (d - 1)) by (apply Z.pow_le_mono_r; lia). lia. }
+        assert (He : e = 3 - 2 ^ (ew ft - 1) - (mw ft + 1)) by lia.
+        destruct (sf_of_bits_fields s 0 (Z.pos m)) as [R D]; [lia|lia|].
+        replace (sign_bit ft s + Z.pos m) with (sign_bit ft s + 0 * P + Z.pos m) by lia.
+        split; [exact R|]. rewrite D. unfold decode_fields.
+        cbn [Z.eqb Z.to_pos]. unfold femin, prec, emax, SpecFloat.emin. rewrite He. reflexivity.
+      + (* normal *)
+        assert (Hdp : d = mw ft + 1).
+        { assert (mw ft < d).
+          { destruct (Z_lt_le_dec (mw ft) d) as [|Hle]; [assumption|].
+            assert (2 ^ d <= P) by (apply Z.pow_le_mono_r; lia). lia. }
+          lia. }
+        assert (Hm2 : Z.pos m < 2 * P).
+        { rewrite Hdp in Hd. rewrite Z.pow_add_r in Hd by lia. change (2 ^ 1) with 2 in Hd. fold P in Hd. lia. }
+        assert (Hemin : 3 - 2 ^ (ew ft - 1) - (mw ft + 1) <= e) by lia.
+        set (eb := e + bias ft + mw ft).
+        assert (Heb : 1 <= eb <= Q - 2) by (unfold eb, bias; lia).
+        destruct (sf_of_bits_fields s eb (Z.pos m - P)) as [R D]; [lia|lia|].
+        replace (sign_bit ft s + eb * P + (Z.pos m - P)) with
+          (sign_bit ft s + eb * P + (Z.pos m - P)) in R by reflexivity.
+        split; [exact R|]. rewrite D. unfold decode_fields. fold P Q.
+        destruct (Z.eqb_spec eb 0) as [H0|_]; [lia|].
+        destruct (Z.eqb_spec eb (Q - 1)) as [H0|_]; [lia|].
+        replace (Z.pos m - P + P) with (Z.pos m) by lia.
+        replace (eb - bias ft - mw ft) with e by (unfold eb; lia). reflexivity.
+  Qed.
+End Encoding.
+
+Lemma valid32_repr_ok : forall f, valid_binary 24 128 f = true -> repr_ok F32 f.
+Proof. intros f H. apply valid_repr_ok; [cbn; lia|cbn; lia|exact H]. Qed.
+
+Lemma valid64_repr_ok : forall f, valid_binary 53 1024 f = true -> repr_ok F64 f.
+Proof. intros f H. apply valid_repr_ok; [cbn; lia|cbn; lia|exact H]. Qed.
+
+(* the integer shortcut only fires inside the int64 range *)
+Lemma f32_min_i64 : f_of_Z F32 (- 2 ^ 63) = S754_finite true 8388608 40.
+Proof. vm_compute. reflexivity. Qed.
+Lemma f32_max_i64 : sf_of_bits F32 0x5EFFFFFF = S754_finite false 16777215 39.
+Proof. vm_compute. reflexivity. Qed.
+
+Lemma valid32_mantissa : forall s m e, valid_binary 24 128 (S754_finite s m e) = true ->
+  Z.pos m < 2 ^ 24.
+Proof.
+  intros s m e Hv. cbn [valid_binary] in Hv. unfold bounded in Hv. apply andb_prop in Hv as [Hc _].
+  unfold canonical_mantissa in Hc. apply Zeq_bool_eq in Hc. unfold fexp, SpecFloat.emin in Hc.
+  pose proof (digits2_pos_bounds m) as Hd. set (d := Z.pos (digits2_pos m)) in *.
+  assert (d <= 24) by lia.
+  assert (2 ^ d <= 2 ^ 24) by (apply Z.pow_le_mono_r; lia). lia.
+Qed.
+
+Lemma trunc_mag_bound : forall m e B, 0 <= B -> Z.pos m * 2 ^ Z.max e 0 <= B ->
+  0 <= (if 0 <=? e then Z.pos m * 2 ^ e else Z.pos m / 2 ^ (- e)) <= B.
+Proof.
+  intros m e B HB H. destruct (Z.leb_spec 0 e) as [He|He].
+  - rewrite Z.max_l in H by lia. assert (0 < 2 ^ e) by (apply Z.pow_pos_nonneg; lia). nia.
+  - rewrite Z.max_r in H by lia. change (2 ^ 0) with 1 in H.
+    assert (Hp : 0 < 2 ^ (- e)) by (apply Z.pow_pos_nonneg; lia).
+    split; [apply Z.div_pos; lia|].
+    apply Z.le_trans with (Z.pos m); [|lia].
+    apply Z.div_le_upper_bound; [exact Hp|]. nia.
+Qed.
+
+Lemma fits_trunc_range : forall f, valid_binary 24 128 f = true -> f32_fits_i64 f = true ->
+  - 2 ^ 63 <= f_trunc f < 2 ^ 64.
+Proof.
+  intros f Hv Hf. destruct f as [s|s| |s m e]; try (cbn [f_trunc]; lia).
+  pose proof (valid32_mantissa s m e Hv) as Hm.
+  unfold f32_fits_i64 in Hf. rewrite f32_min_i64, f32_max_i64 in Hf.
+  apply andb_prop in Hf as [Hge Hle]. unfold f_ge in Hge. unfold f_le in Hle.
+  cbn [SFcompare] in Hge, Hle. cbn [f_trunc]. cbv zeta.
+  destruct s.
+  - (* negative: magnitude at most 2^63 *)
+    assert (Hmag : Z.pos m * 2 ^ Z.max e 0 <= 2 ^ 63).
+    { destruct (Z.compare_spec e 40) as [He|He|He]; [| |discriminate].
+      - subst e. change (Pos.compare_cont Eq m 8388608) with (Pos.compare m 8388608) in Hge.
+        destruct (Pos.compare_spec m 8388608) as [Hq|Hq|Hq]; cbn [CompOpp] in Hge;
+          [| |discriminate]; change (Z.max 40 0) with 40; lia.
+      - assert (2 ^ Z.max e 0 <= 2 ^ 39) by (apply Z.pow_le_mono_r; lia).
+        assert (0 < 2 ^ Z.max e 0) by (apply Z.pow_pos_nonneg; lia).
+        change (2 ^ 63) with (2 ^ 24 * 2 ^ 39). nia. }
+    pose proof (trunc_mag_bound m e (2 ^ 63) ltac:(lia) Hmag). lia.
+  - (* positive: magnitude below 2^63 *)
+    assert (Hmag : Z.pos m * 2 ^ Z.max e 0 <= 2 ^ 63 - 1).
+    { destruct (Z.compare_spec e 39) as [He|He|He]; [| |discriminate].
+      - subst e. change (Z.max 39 0) with 39. change (2 ^ 63) with (2 ^ 24 * 2 ^ 39). lia.
+      - assert (2 ^ Z.max e 0 <= 2 ^ 38) by (apply Z.pow_le_mono_r; lia).
+        assert (0 < 2 ^ Z.max e 0) by (apply Z.pow_pos_nonneg; lia).
+        change (2 ^ 63) with (2 ^ 25 * 2 ^ 38). nia. }
+    pose proof (trunc_mag_bound m e (2 ^ 63 - 1) ltac:(lia) Hmag). lia.
+Qed.
+
+Lemma valid32_ok : forall f, valid_binary 24 128 f = true -> f32_ok f.
+Proof.
+  intros f Hv. split; [apply valid32_repr_ok; exact Hv|]. apply fits_trunc_range. exact Hv.
+Qed.
+
+Lemma valid64_ok : forall f, valid_binary 53 1024 f = true ->
+  valid_binary 24 128 (fconv F32 f) = true -> f64_ok f.
+Proof.
+  intros f Hv Hc. split; [apply valid64_repr_ok; exact Hv|]. apply valid32_ok. exact Hc.
+Qed.
